@@ -68,7 +68,8 @@ def spec (c : Case) (o : Obs) : Bool × String :=
 
 def model (c : Case) (o : Obs) (obsText : String) : String :=
   if c.trials > 1 then s!"trials={o.kv.nat "trials"} ok=0 other={o.kv.nat "other"} leakhang=0" else
-  if c.op == "cmap" && c.sync then
+  -- `tail=1`: the stage is a later inner stream of a Concat (outside the modelled open sequence): spec-only
+  if c.op == "cmap" && c.sync && !c.kv.flag "tail" then
     match acceptCmap c o with
     | "accepted" => obsText
     | "skipped" => obsText
